@@ -203,6 +203,22 @@ func ruleSeqhash(c *Ctx, prop string) {
 					continue
 				}
 				if !env.reach[sum.Block()] {
+					// rejected outright only if every return that can still be reached hands back an error; a
+					// reachable return of some other value (a recursive call for the equivalent DNA, a helper)
+					// computes the hash elsewhere
+					elsewhere := false
+					for _, r := range returnsOf(h) {
+						if !env.reach[r.Block()] || len(r.Results) != 2 {
+							continue
+						}
+						if k, isC := r.Results[1].(*ssa.Const); isC && k.IsNil() {
+							elsewhere = true
+						}
+					}
+					if elsewhere {
+						c.undecided("TERM-CANON", name, sum.Pos(), "the digest call is not reached for this combination, but a result without an error is returned: the hash is computed by another call (recursion or a helper), not followed")
+						continue
+					}
 					c.bad("TERM-CANON", name, sum.Pos(), "the digest is unreachable for this accepted combination")
 					continue
 				}
